@@ -147,6 +147,13 @@ class AsyncIOClient(ABC):
         if self.status_callback:
             try:
                 await self.status_callback(self.state)
+            except asyncio.CancelledError:
+                # Either the task running this is being cancelled: pass it on.  Or the callback awaited
+                # something that had been cancelled: that is a failure of the callback like any other
+                cancelling = getattr(asyncio.current_task(), "cancelling", None)
+                if cancelling is None or cancelling() > 0:
+                    raise
+                self.logger.error("Status callback was cancelled", exc_info=True)
             except Exception as e:
                 self.logger.error(f"Error in status callback: {e}", exc_info=True)
 
